@@ -460,8 +460,11 @@ class RidgeScenario:
     def preload(self):
         import skmatter.linear_model._ridge  # noqa: F401
 
+    def anchor_files(self):
+        return ["linear_model/_ridge.py"]
+
     def plan(self, tier):
-        q, f = {"quick": (4000, 4000), "thorough": (150000, 150000)}[tier]
+        q, f = {"quick": (6000, 6000), "thorough": (300000, 300000)}[tier]
         return {"quiet": q, "faults": f, "timeout": 120.0, "budget": 75.0 if tier == "quick" else 3 * 3600.0, "slice": 40}
 
     def generate(self, rng, idx, tier, faults):
